@@ -220,6 +220,33 @@ def w_c18(idx):
     return n, out, npairs
 
 
+def w_shape_copies(idx):
+    """MC_Shapes (Mode single): copy of every subtree of every small ordered tree, against Steps!CopyF."""
+    out, n = [], 0
+    for i in idx:
+        t = G["SC"][i]
+        w = World.build(t["from"])
+        op = t["op"]
+        ok, ret, exc = w.apply("copy", op["args"])
+        replay = {"kind": "shape-copy", "state": t["from"], "op": op}
+        n += 1
+        if not ok:
+            out.append((opkey(op, "raised:shapes", exc), repr(exc), replay))
+            continue
+        after = w.pi(ALLF)
+        if ret != op["ret"]:
+            out.append(("copy:ret:shapes", f"expected {op['ret']} got {ret}", replay))
+        if canon(after) != canon(t["to"]):
+            d = diff_nodes(t["to"], after)
+            out.append(("copy:not-equal:shapes:" + ",".join(sorted(d)), f"fields {d}: expected {jdump(t['to'])} got {jdump(after)}", replay))
+        ids = [x.id for x in w.nodes]
+        if len(set(ids)) != len(ids):
+            out.append(("copy:id-not-fresh:shapes", str(ids), replay))
+        if w.parent_links_ok():
+            out.append(("copy:parent-link-outside-copy:shapes", str(w.parent_links_ok()), replay))
+    return n, out
+
+
 def w_shapes(idx):
     """MC_Shapes: both trees of every logged pair are built as they are (no history) and every ordered pair of
     distinct nodes is compared."""
@@ -311,6 +338,23 @@ def run(rep, tier, seed):
         for key, det, replay in outl:
             rep.violation(f"{pid}:{key}", det[:500], replay)
     rep.notes["transitions_replayed_after_genuine_history"] = nT
+    # the copy of every subtree of every small tree shape
+    wd = workdir(pid, "shapes", wipe=True)
+    nS = 0
+    for cfg in (["MC_ShapesCopy.cfg"] if tier == "quick" else ["MC_ShapesCopy.cfg", "MC_ShapesCopy7.cfg"]):
+        outp = os.path.join(wd, "shapes.out")
+        r = run_tlc("MC_Shapes", cfg=os.path.join(SPEC, cfg), stdout_path=outp, timeout=2400)
+        if not r.ok or r.invariant_violated:
+            raise MachineryError(f"{cfg}: CopyF is not an equal disjoint copy on some shape:\n" + r.out[-1500:])
+        rep.add_tlc(r, cfg + " (copy of every subtree of every ordered labelled tree)")
+        G["SC"] = load_log_all(outp)["T"]
+        os.remove(outp)
+        for n, outl in parallel(w_shape_copies, range(len(G["SC"]))):
+            nS += n
+            for key, det, replay in outl:
+                rep.violation(f"{pid}:{key}", det[:500], replay)
+    rep.notes["shape_copies_replayed"] = nS
+    nT += nS
     t = T[len(T) // 2]
     rep.sample({"template->copy->edit": [o for o, _ in G["access"][canon(t["from"])][1]] + [t["op"]]})
     rep.cov["evaluations"] = nT
